@@ -53,7 +53,23 @@ Inductive case :=
    sessions of the real Coordinator.Execute on it, in a child process built with the race detector:
    data race reports (incl. the runtime's "concurrent map" aborts), subscriptions left in the table,
    streams handed out and never closed *)
-| RaceComm (workers rounds reports leftover unreleased sessions : nat) (ran : bool).
+| RaceComm (workers rounds reports leftover unreleased sessions : nat) (ran : bool)
+(* registration concurrent with release, on the real StreamManager / the real Libp2pCommunication
+   (sends = registrations of the streams the host handed out for them) with streams whose Close is
+   parked by the harness: the ReleaseStreams of session 0 is parked inside a Close while further
+   operations are issued; [ops] = a sequential order of all operations that is consistent with what
+   was seen (an operation that was issued during the parked release is listed after it), WITHOUT the
+   last release of every session that followed; impl: Close calls per stream at the very end and (level
+   manager; [] at level comm) the registry at the very end; ok = every call returned *)
+| SRace (S P X : nat) (ops : list sop) (impl_closed : list nat) (impl_left : list (list (option nat)))
+        (ok : bool)
+(* a session outlives TssTimeout through a retry (errk: 0 SubsetError, 1 CommunicationError,
+   2 tss.Error, 3 CoordinatorError ends its first phase); a duplicate request for its id arrives when
+   it has been admitted for longer than TssTimeout (late: three quarters into the retry phase's own
+   timeout); reached = the schedule was reached (the first session was live before and after the
+   duplicate was decided); impl: see Model.long_ok *)
+| Long (errk : nat) (late reached first_live dup_admitted : bool) (maxlive : nat)
+       (pend_after reuse : bool).
 
 Definition ret_eqb (a b : ret) : bool :=
   match a, b with
@@ -172,6 +188,14 @@ Definition agree (c : case) : bool :=
       wpeers_below P ops
       && wobss_eqb (model_wobs RegOnOpen (fun x => nth x wfails false) P (sm_empty, 0) ops) impl
   | RaceComm _ _ _ _ _ _ ran => ran
+  | SRace nS nP nX ops closed lft ok =>
+      let fin := sm_exec nP sst0 (ops ++ release_all nS) in
+      ok && adds_below nS nP ops && all_accepted nP nX ops
+      && nats_eqb (cvec nX (snd fin)) closed
+      && (match lft with [] => true | _ => rows_eqb (snap nS nP (fst fin)) lft end)
+  | Long _ _ reached first_live dup_admitted _ _ _ =>
+      (* a schedule the machine was too slow for says nothing *)
+      negb reached || (first_live && Bool.eqb dup_admitted (negb long_dup_refused))
   end.
 
 Definition judge (c : case) : bool :=
@@ -194,6 +218,9 @@ Definition judge (c : case) : bool :=
   | CommW P nS wfails ops impl => wcomm_ok nS [] [] (fun _ => []) ops impl
   | RaceComm _ _ reports leftover unreleased _ _ =>
       Nat.eqb reports 0 && Nat.eqb leftover 0 && Nat.eqb unreleased 0
+  | SRace nS nP nX ops closed lft ok => ok && Nat.eqb (length closed) nX && srace_ok closed lft
+  | Long _ _ reached first_live dup_admitted maxlive pend_after reuse =>
+      negb reached || long_ok first_live dup_admitted maxlive pend_after reuse
   end.
 
 Definition has_dup (l : list nat) : bool :=
@@ -214,6 +241,8 @@ Definition tag (c : case) : N :=
   | Tear _ at_ _ _ _ _ _ _ _ _ _ _ _ _ => if Nat.eqb at_ 0 then 36%N else 37%N
   | CommW _ _ wfails _ _ => if existsb (fun b => b) wfails then 39%N else 38%N
   | RaceComm _ _ _ _ _ _ _ => 40%N
+  | SRace _ _ _ _ _ lft _ => match lft with [] => 42%N | _ => 41%N end
+  | Long errk late _ _ _ _ _ _ => (43 + 2 * N.of_nat errk + (if late then 1 else 0))%N
   end.
 
 Definition check_all := check_cases agree judge tag.
